@@ -173,7 +173,7 @@ func c01One(c *vlib.Ctx, r *vlib.Rand, t gopacket.LayerType, b []byte, how strin
 	}
 	renderSets := map[int]bool{r.Intn(16): true, r.Intn(16): true, 0: true}
 	var errSeen [16]int // 0 unknown, 1 nil, 2 non-nil
-	lastOK := ""       // last layer of a variant that decoded without error: names what decoded differently
+	lastOK := ""        // last layer of a variant that decoded without error: names what decoded differently
 	nontrivial := false
 	for oi, o := range allOptionSets {
 		var p gopacket.Packet
